@@ -60,6 +60,8 @@ VARIABLES svCase, svL
 Cases == {[c |-> "eq", kind |-> k] : k \in StructuralKinds \cup AnnotationKinds \cup {"same", "same_full"}}
          \cup {[c |-> "gate", kind |-> k, target |-> t, plugin |-> p] : k \in BadKinds, t \in Targets, p \in Plugins}
          \cup {[c |-> "load", files |-> n] : n \in {"full", "trimmed", "two", "three", "extension"}}
+         \* several operations on the SAME in-memory documents in one process: Load; Load; Eq; Load(first only)
+         \cup {[c |-> "session", files |-> n] : n \in {"two", "three", "extension"}}
 Init == svCase \in Cases /\ svL = 0
 Next == UNCHANGED <<svCase, svL>>
 EmitCase == PrintT("@K " \o ToJson(svCase))
